@@ -70,8 +70,8 @@ type typePool struct {
 	ext  bool
 }
 
-var kindIdx = map[string]int{"T": 6, "P": 6, "N": 4, "S": 4, "L": 6, "M": 6, "G": 6, "W": 4, "U": 4, "I": 3, "int": 1, "string": 1}
-var localKinds = []string{"T", "T", "T", "P", "P", "N", "S", "L", "M", "G", "I", "int", "string"}
+var kindIdx = map[string]int{"T": 6, "P": 6, "N": 4, "S": 4, "L": 6, "M": 6, "G": 6, "W": 4, "U": 4, "I": 3, "A": 3, "X": 3, "F": 3, "int": 1, "string": 1}
+var localKinds = []string{"T", "T", "T", "P", "P", "N", "S", "L", "M", "G", "I", "A", "X", "F", "int", "string"}
 var extKinds = []string{"W", "W", "U", "U", "int", "string"}
 
 // fresh returns a type not yet used in this directive; extOnly restricts to
